@@ -212,8 +212,46 @@ def check_disable_history(kinds, dt, vals, name):
     return None
 
 
+CLI_DATA = [{"i": "1", "f": "1.5", "b": "true", "d": "2020-01-02", "t": "12:30", "dt": "2020-01-02T03:04:05", "s": "plain"},
+            {"i": "-2", "f": "1e3", "b": "False", "d": "2021-03-04", "t": "10:20:30", "dt": "2021-03-04T10:20:30", "s": "other"}]
+CLI_NAMES = {"int": "IntString", "float": "FloatString", "bool": "BooleanString", "date": "IsoDateString",
+             "time": "IsoTimeString", "datetime": "IsoDatetimeString"}
+
+
+def check_cli_disable(ctx, rng):
+    """`--disable-str-serializable-types` in both documented spellings (python type name, class name), with and without
+    --datetime: a disabled type never appears in the printed code"""
+    import tempfile
+    from .. import clitools
+    spellings = list(CLI_NAMES) + list(CLI_NAMES.values())
+    sets = [[x] for x in spellings] + [rng.sample(spellings, k=rng.randint(2, 4)) for _ in range(ctx.n(8, 60))]
+    with tempfile.TemporaryDirectory(prefix="j2m-c09-") as d:
+        clitools.write_files(d, {"d.json": CLI_DATA})
+        jobs, metas = [], []
+        for names in sets:
+            for dt in (False, True):
+                if not dt and all(CLI_NAMES.get(n, n).startswith("Iso") for n in names):
+                    continue
+                argv = ["-m", "Root", "d.json"] + (["--datetime"] if dt else []) + ["--disable-str-serializable-types"] + names
+                jobs.append((argv, d, ctx.repo))
+                metas.append((names, dt, argv))
+        for (names, dt, argv), (rc, out, err) in zip(metas, clitools.run_many(jobs)):
+            ctx.case(("cli-disable", tuple(names), dt), nontrivial=True)
+            if rc != 0:
+                yield {"kind": "cli-disable-fails", "argv": argv, "observed": err[-300:]}
+                continue
+            body = clitools.strip_header(out)          # the header echoes the command line, type names included
+            if body is None:
+                yield {"kind": "cli-disable-fails", "argv": argv, "observed": "no well-formed header: " + out[:200]}
+                continue
+            leaked = sorted({CLI_NAMES.get(n, n) for n in names if CLI_NAMES.get(n, n) in body})
+            if leaked:
+                yield {"kind": "disabled-type-in-output", "argv": argv, "observed": {"leaked": leaked, "stdout": body[-600:]}}
+
+
 def falsify(ctx):
     rng = ctx.rng("fals")
+    yield from check_cli_disable(ctx, rng)
     for _ in range(ctx.n(60, 1500)):
         kinds = tuple(rng.sample(KINDS, k=rng.randint(1, 3)))
         dt = rng.random() < 0.2
@@ -274,6 +312,18 @@ def falsify(ctx):
 
 
 def replay(ctx, hit):
+    if hit["kind"] in ("disabled-type-in-output", "cli-disable-fails"):
+        import tempfile
+        from .. import clitools
+        with tempfile.TemporaryDirectory(prefix="j2m-c09-") as d:
+            clitools.write_files(d, {"d.json": CLI_DATA})
+            rc, out, err = clitools.run_cli(hit["argv"], d, ctx.repo)
+            names = hit["argv"][hit["argv"].index("--disable-str-serializable-types") + 1:]
+            body = clitools.strip_header(out) or ""
+            leaked = sorted({CLI_NAMES.get(n, n) for n in names if CLI_NAMES.get(n, n) in body})
+            if rc != 0:
+                return {"kind": "cli-disable-fails", "observed": err[-300:]}
+            return {"kind": "disabled-type-in-output", "observed": {"leaked": leaked}} if leaked else None
     registry = stages.make_registry(tuple(k for k in hit.get("registry", KINDS) if k in KINDS),
                                     datetime=any(k in DT for k in hit.get("registry", [])))
     if hit["kind"] in ("first-match", "roundtrip"):
